@@ -43,6 +43,18 @@ def gen_histories(tier: str, seed: int) -> list[dict[str, Any]]:
               and sum(x['act'] == 'step' for x in h) >= 2]
         hs.sort(key=lambda h: -sum(x['act'] == 'step' for x in h))
         out.append({'hp': f, 'hs': hs[:4], 'tlc': (r.distinct, r.generated)})
+    # a long history with a fast-decaying running average: the factors are
+    # dominated by the data, shards become correlated and the per-shard
+    # contributions to <V, D> can have opposite signs
+    f = dict(F=1, I=1, accum=1, in_hook=True, decay=0.3)
+    cfg1 = kaisa.Config(W=1, k=1, prediv=False, **f)
+    hs, r = refreplay.gen_behaviours(
+        cfg1, ['Train', 'Step'], [1], [-1], 16 if tier == 'quick' else 24, 0,
+        seed, exhaustive=True, strict=True)
+    hs = [h for h in hs if not h[-1]['x'].get('raises')]
+    hs.sort(key=lambda h: -sum(x['act'] == 'step' for x in h))
+    out.append({'hp': f, 'hs': hs[:1], 'tlc': (r.distinct, r.generated),
+                'long': True})
     return out
 
 
@@ -57,8 +69,20 @@ def run_case(case: dict[str, Any]) -> dict[str, Any]:
     kcase = None
     clip_active = False
     pols = [simdist.LazyCompletion(seed), simdist.RandomPolicy(seed, 0.4)]
+    if case.get('one_policy'):
+        pols = pols[:1]
     if case.get('more_policies'):
         pols.append(simdist.EagerCompletion(list(reversed(range(W)))))
+    if case.get('craft'):
+        # adversarial gradients: a shard whose contribution to the clip sum
+        # is negative (found from the factors of a first execution)
+        ex0 = gptrun.execute(cfg, h, seed, pols[0])
+        if not any(ex0['errors']):
+            cg = gptrun.craft_opposite_sign_grads(cfg, h, ex0, seed)
+            if cg:
+                cfg = kaisa.Config(**{**case['cfg'], 'gpt': {
+                    **case['cfg']['gpt'], 'craft_grads': cg}})
+    crafted = len(cfg.gpt.get('craft_grads') or {})
     for pol in pols:
         out = gptrun.replay(cfg, h, seed, pol)
         clip_active = clip_active or out['stats'].get('nu_active', 0) > 0
@@ -94,6 +118,7 @@ def run_case(case: dict[str, Any]) -> dict[str, Any]:
             issues.append((f'TLC over extracted GPT programs: {r.violated}',
                            {'cat': 'tlc', 'inv': str(r.violated)}))
     return {'issues': issues[:5], 'tlc': tl, 'execs': len(pols),
+            'crafted': crafted,
             'kcase': kcase}
 
 
@@ -102,6 +127,26 @@ def cases_for(tier: str, seed: int, hists: list[dict]) -> list[dict]:
         [(1, 2), (2, 1), (2, 2), (1, 3), (3, 2), (2, 3), (1, 1), (3, 1), (4, 2)]
     cases = []
     i = 0
+    longs = [h for h in hists if h.get('long')]
+    hists = [h for h in hists if not h.get('long')]
+    for fam in longs:
+        for j, (D, M, bc, br, gm) in enumerate(
+                [(1, 2, False, False, 'col1'), (1, 2, True, True, 'simple'),
+                 (2, 2, False, True, 'row1'), (1, 3, False, False, 'col1'),
+                 (1, 2, False, False, 'row1'), (2, 2, False, False, 'col1')]
+                * (1 if tier == 'quick' else 3)):
+            if not fam['hs']:
+                continue
+            cfgd = dict(W=D * M, k=1, prediv=False, method='eigen',
+                        kl_clip=1e-6, damping=0.01, bucket_cap_mb=25.0,
+                        symmetry=False,
+                        gpt={'D': D, 'M': M, 'bias_col': bc, 'bias_row': br,
+                             'model': gm})
+            cfgd.update(fam['hp'])
+            cases.append({'cfg': cfgd, 'h': fam['hs'][0],
+                          'seed': seed * 100 + 50 + j, 'tlc': False,
+                          'more_policies': False, 'one_policy': True,
+                          'craft': True})
     for D, M in topos:
         for bc, br in [(True, True), (False, True), (True, False),
                        (False, False)]:
@@ -175,6 +220,7 @@ def main(tier: str, seed: int) -> int:
     v.coverage = {
         'gptdist_cases': len(kidx), 'gptdist_drift': kdrift,
         'gptdist_design_cases': len(dcs),
+        'steps_with_crafted_opposite_sign_gradients': sum(o.get('crafted', 0) for o in outs),
         'states': max(states, 1), 'transitions': max(trans, 1),
         'traces_validated_against_impl': sum(o['execs'] for o in outs),
         'samples': [{'cfg': cases[0]['cfg'],
